@@ -62,4 +62,16 @@ static inline void verif_cpuid(uint32_t leaf, uint32_t subleaf, uint32_t *a, uin
         __CPROVER_same_object(__CPROVER_return_value, *base_ptr) && \
         (((uintptr_t)__CPROVER_return_value) & 31) == 0 && \
         (size_t)((const char *)__CPROVER_return_value - (const char *)*base_ptr) <= 31))
+
+/* the same contract specialised to the allocation layout "calloc returned a 32-byte aligned block" (alignment
+   offset 0 of the 0..31 the general contract allows): used where skinny_calloc is REPLACED in the SIMD init
+   jobs - with a symbolic alignment offset every later field access is at a symbolic offset and CBMC runs out
+   of memory (14 GB).  Listed as an assumption of those jobs. */
+#define VC_skinny_calloc_ALIGNED \
+    __CPROVER_requires(size <= 4096 && __CPROVER_is_fresh(base_ptr, sizeof(void *))) \
+    __CPROVER_assigns(*base_ptr) \
+    __CPROVER_ensures(__CPROVER_return_value == NULL ==> *base_ptr == __CPROVER_old(*base_ptr)) \
+    __CPROVER_ensures(__CPROVER_return_value != NULL ==> (__CPROVER_is_fresh(__CPROVER_return_value, size + 31) && *base_ptr == __CPROVER_return_value))
+/* (is_fresh is applied to the return value, not to *base_ptr: the latter form sends symex into a non-terminating
+   search in the installed CBMC) */
 #endif
